@@ -52,7 +52,8 @@ var propMutNames = []string{"honest", "no-txs", "17-txs", "first-not-block-msg",
 	"author-not-consensus-proposer", "fee-recipient-not-author", "wrong-parent", "wrong-number", "wrong-beacon-root", "zero-gas-requests", "two-gas-requests",
 	"undecodable-requests", "system-section-deviates", "engine-INVALID", "engine-SYNCING", "engine-ACCEPTED", "engine-error", "future-timestamp",
 	"wrong-signature", "wrong-sequence", "wrong-timeout-height", "non-bridge-msg-among-rest", "count-byte-raised", "nil-payload",
-	"state-root-changed-hash-kept", "user-tx-appended-hash-kept", "relayer-txs-without-block-msg"}
+	"state-root-changed-hash-kept", "user-tx-appended-hash-kept", "relayer-txs-without-block-msg",
+	"fee-recipient-padded", "parent-hash-padded", "beacon-root-padded"}
 
 type propWorld struct {
 	c       *world.Cluster
@@ -369,6 +370,19 @@ func (w *propWorld) round(ri int, r PropRound, o *Outcome) *Failure {
 			sr[len(sr)-1] ^= 1
 			m.Payload.StateRoot = sr
 		}
+	case "fee-recipient-padded":
+		// the right 20 bytes behind 12 extra leading bytes: equal only after cropping
+		eo.Mutate = func(m *goatmodtypes.MsgNewEthBlock) {
+			m.Payload.FeeRecipient = append(make([]byte, 12), m.Payload.FeeRecipient...)
+		}
+	case "parent-hash-padded":
+		eo.Mutate = func(m *goatmodtypes.MsgNewEthBlock) {
+			m.Payload.ParentHash = append([]byte{byte(1 + r.Arg%200)}, m.Payload.ParentHash...)
+		}
+	case "beacon-root-padded":
+		eo.Mutate = func(m *goatmodtypes.MsgNewEthBlock) {
+			m.Payload.BeaconRoot = append([]byte{byte(1 + r.Arg%200)}, m.Payload.BeaconRoot...)
+		}
 	case "user-tx-appended-hash-kept":
 		eo.Mutate = func(m *goatmodtypes.MsgNewEthBlock) {
 			m.Payload.Transactions = append(append([][]byte{}, m.Payload.Transactions...), []byte{0x02, 0xc0})
@@ -523,7 +537,7 @@ func TestC08_Proposals(t *testing.T) {
 	RunProp(t, Prop[PropCase]{
 		ID: "C08", Name: "proposals", Quick: quick, Thor: thor, WAL: true,
 		Gen: genPropCase, Run: runPropCase,
-		Rule: "two-validator chains replicated on two nodes (own stores, own fake execution layers), a quarter of them started at height 58 with a halving interval of one block (the history crosses the 64th halving); histories of 3-12 rounds with states filled by refunds, claims and unlock bursts (matured unlocks included); honest rounds: 0-40 relayer transactions (valid votes, votes for an already used sequence, failing approvals, malformed batches, stale sequences) enter the proposer's mempool through CheckTx, the node holding the proposer's key runs the real PrepareProposal, every node must ACCEPT the result, it must have <= 16 transactions and its execution-block message must succeed in FinalizeBlock; deviation rounds: a well-formed proposal with exactly one of 29 deviations (no/17 transactions, only relayer transactions without a block message, block message not first / not alone / repeated, other author, author != consensus proposer, fee recipient != author, wrong parent / number / beacon root, 0 or 2 gas requests, undecodable requests, deviating system section, engine INVALID/SYNCING/ACCEPTED/error, timestamp 1 h ahead, wrong signature / sequence / timeout height, non-bridge message, raised count byte, nil payload, state root changed or a user transaction appended under the honest block's hash), in a third of these rounds after every node has verified (and accepted) the well-formed proposal of the same height, must be REJECTED by every node; the same property runs in a -race build where any reported data race is a violation; non-trivial = a deviation round or an honest round with a non-empty mempool; evaluations count rounds",
+		Rule: "two-validator chains replicated on two nodes (own stores, own fake execution layers), a quarter of them started at height 58 with a halving interval of one block (the history crosses the 64th halving); histories of 3-12 rounds with states filled by refunds, claims and unlock bursts (matured unlocks included); honest rounds: 0-40 relayer transactions (valid votes, votes for an already used sequence, failing approvals, malformed batches, stale sequences) enter the proposer's mempool through CheckTx, the node holding the proposer's key runs the real PrepareProposal, every node must ACCEPT the result, it must have <= 16 transactions and its execution-block message must succeed in FinalizeBlock; deviation rounds: a well-formed proposal with exactly one of 32 deviations (no/17 transactions, only relayer transactions without a block message, block message not first / not alone / repeated, other author, author != consensus proposer, fee recipient != author, wrong parent / number / beacon root, 0 or 2 gas requests, undecodable requests, deviating system section, engine INVALID/SYNCING/ACCEPTED/error, timestamp 1 h ahead, wrong signature / sequence / timeout height, non-bridge message, raised count byte, nil payload, fee recipient / parent hash / beacon root with extra leading bytes, state root changed or a user transaction appended under the honest block's hash), in a third of these rounds after every node has verified (and accepted) the well-formed proposal of the same height, must be REJECTED by every node; the same property runs in a -race build where any reported data race is a violation; non-trivial = a deviation round or an honest round with a non-empty mempool; evaluations count rounds",
 	})
 }
 
